@@ -377,6 +377,14 @@ fn run_history(c: &Case, cx: &mut Cx) -> Verdict {
                     return fail(&format!("c08.{}.accepts_out_of_range", name), format!("step {} {:?} is refused", i + 1, op), format!("Ok({} ns)", nt.as_nanos()));
                 }
                 t = nt;
+                if let Op::FromDateTime { .. } = op {
+                    // which offset a Time converted from a DateTime carries is not stated by the
+                    // property: adopt the implementation's choice (it must be a valid offset)
+                    match t.get_offset() {
+                        Offset::Fixed(o) if o.abs() <= 86_399 => m.off = o,
+                        other => return fail("c08.from_datetime.invalid_offset", "a fixed offset within +-23:59:59", format!("{:?}", other)),
+                    }
+                }
             }
         }
         if let Some(v) = invariant(&t, &m, i + 1, name) {
